@@ -6,6 +6,10 @@ package main
 //                Function.Eval leaves unevaluated for the form's Call to handle)
 //   forwards   — whether the form's Call method mentions *slip.ReturnResult / *GoTo at all (the
 //                only way an exit marker can be forwarded by a body-evaluating form)
+//   deferred   — the names of the functions / methods called from the `defer` statements of the
+//                form's Call method (a deferred function literal, a deferred local closure or a
+//                deferred function of the same file are followed one call level deep): what the
+//                form does on EVERY way out of its body, a Go panic (= a slip error) included
 
 import (
 	"fmt"
@@ -25,7 +29,7 @@ var evalFactFiles = []string{
 	"pkg/cl/defun.go", "pkg/cl/dolist.go", "pkg/cl/dotimes.go", "pkg/cl/do.go", "pkg/cl/dox.go", "pkg/cl/values.go",
 	"pkg/cl/multiple-value-bind.go", "pkg/cl/multiple-value-list.go", "pkg/cl/block.go", "pkg/cl/return-from.go",
 	"pkg/cl/return.go", "pkg/cl/tagbody.go", "pkg/cl/go.go", "pkg/cl/unwind-protect.go", "pkg/cl/ignore-errors.go",
-	"pkg/cl/error.go", "pkg/gi/with-mutex-lock.go",
+	"pkg/cl/error.go", "pkg/gi/with-mutex-lock.go", "pkg/gi/recover.go", "pkg/cl/with-open-file.go",
 }
 
 func init() {
@@ -34,6 +38,7 @@ func init() {
 			name      string
 			skip      []bool
 			ret, goto_ bool
+			deferred   map[string]bool
 		}
 		var facts []fact
 		for _, rel := range evalFactFiles {
@@ -42,8 +47,27 @@ func init() {
 			if err != nil {
 				return "", err
 			}
-			f := fact{}
+			f := fact{deferred: map[string]bool{}}
 			found := false
+			fileFuncs := map[string]*ast.BlockStmt{}
+			for _, d := range file.Decls {
+				if fd, ok := d.(*ast.FuncDecl); ok && fd.Body != nil {
+					fileFuncs[fd.Name.Name] = fd.Body
+				}
+			}
+			calls := func(n ast.Node, out map[string]bool) {
+				ast.Inspect(n, func(m ast.Node) bool {
+					if ce, ok := m.(*ast.CallExpr); ok {
+						switch fn := ce.Fun.(type) {
+						case *ast.SelectorExpr:
+							out[fn.Sel.Name] = true
+						case *ast.Ident:
+							out[fn.Name] = true
+						}
+					}
+					return true
+				})
+			}
 			ast.Inspect(file, func(n ast.Node) bool {
 				switch tn := n.(type) {
 				case *ast.CompositeLit:
@@ -77,6 +101,34 @@ func init() {
 					}
 				case *ast.FuncDecl:
 					if tn.Name.Name == "Call" && tn.Recv != nil && tn.Body != nil {
+						locals := map[string]ast.Node{}
+						ast.Inspect(tn.Body, func(m ast.Node) bool {
+							if as, ok := m.(*ast.AssignStmt); ok && len(as.Lhs) == len(as.Rhs) {
+								for i, l := range as.Lhs {
+									if id, ok := l.(*ast.Ident); ok {
+										if fl, ok := as.Rhs[i].(*ast.FuncLit); ok {
+											locals[id.Name] = fl.Body
+										}
+									}
+								}
+							}
+							return true
+						})
+						ast.Inspect(tn.Body, func(m ast.Node) bool {
+							if ds, ok := m.(*ast.DeferStmt); ok {
+								first := map[string]bool{}
+								calls(ds.Call, first)
+								for nm := range first {
+									f.deferred[nm] = true
+									if body, ok := locals[nm]; ok {
+										calls(body, f.deferred)
+									} else if body, ok := fileFuncs[nm]; ok && nm != "Call" {
+										calls(body, f.deferred)
+									}
+								}
+							}
+							return true
+						})
 						ast.Inspect(tn.Body, func(m ast.Node) bool {
 							if st, ok := m.(*ast.StarExpr); ok {
 								switch x := st.X.(type) {
@@ -130,6 +182,21 @@ func init() {
 		}
 		list("mentionsReturnResult", "forms whose Call method mentions *slip.ReturnResult", func(f fact) bool { return f.ret })
 		list("mentionsGoTo", "forms whose Call method mentions *GoTo", func(f fact) bool { return f.goto_ })
+		b.WriteString("/-- per form: the functions / methods called from the defer statements of its Call method -/\n")
+		b.WriteString("def deferred : List (String × List String) := [\n")
+		for i, f := range facts {
+			var ns []string
+			for nm := range f.deferred {
+				ns = append(ns, strconv.Quote(nm))
+			}
+			sort.Strings(ns)
+			sep := ","
+			if i == len(facts)-1 {
+				sep = ""
+			}
+			fmt.Fprintf(&b, "  (%q, [%s])%s\n", f.name, strings.Join(ns, ", "), sep)
+		}
+		b.WriteString("]\n\n")
 		b.WriteString("end SlipVerif.Gen.EvalFacts\n")
 		return b.String(), nil
 	}
